@@ -14,6 +14,12 @@ add("C10", True, "E2-enum", "model_checking",
     "Trusted: the RxO table as written in harness/src/c10.rs; duration alphabet {0,1s,inf} and strengths {0,7} stand for all values (comparisons are monotone).",
     "5.10")
 
+add("C12", True, "E1-bfs", "model_checking",
+    "explicit-state BFS (history replay) over the real DiscoveryDB under a virtual clock, lock-step with a lease reference model",
+    "All histories up to the depth bound over {announce(p, lease in 400ms/1s/absent/infinite), liveness(p), advance(1/300/400/600/40000/59000 ms), cleanup, dispose(p), endpoint(p, reader|writer)} for two remote participants are executed on a real DiscoveryDB whose Instant::now() is a virtual clock; after every event the set returned by participant_cleanup, the known participants and the endpoints visible per participant are compared with a reference model (last sign of life per participant; park on timeout, restore on re-announce, forget on dispose). States are merged on a canonical digest of every DB field the lease logic reads.",
+    "Trusted: the harness plays Discovery's part (which DB call each SPDP event makes: discovery.rs handle_participant_reader / participant_cleanup); absent lease accepted as 60 s or 100 s; virtual clock seam.",
+    "5.12")
+
 NOT_YET = {}
 
 def main():
